@@ -224,7 +224,12 @@ func runRoute(t *testing.T, c spec.Case, e Em) {
 				x, err := vp.MuxDial(dm, id, nonceD, it.Len)
 				o.PeerID, o.PeerNonce, o.PayloadOK, o.Extra, o.Err = x.PeerID, x.PeerNonce, x.PayloadOK, x.Extra, errStr(err)
 			} else {
-				r := vp.GRPCDialPing(dg, id, 60*time.Second, false)
+				var r *vp.DialRes
+				if it.WaitReady {
+					r = vp.GRPCDialPingWait(dg, id, 40*time.Second)
+				} else {
+					r = vp.GRPCDialPing(dg, id, 60*time.Second, false)
+				}
 				o.Msg = r.Msg
 				if r.DialErr != "" {
 					o.Err = "dial: " + r.DialErr
